@@ -1,7 +1,7 @@
 (* What C10 asks of the file system at one instant and of the sequence of
    instants (the prefixes of the operation sequence).  Definitions only. *)
 From Coq Require Import ZArith Bool List.
-From Lal Require Import Common.LBytes Hls.HlsFloat Hls.HlsFs Hls.HlsPlaylist Hls.HlsMuxer.
+From Lal Require Import Common.LBytes Hls.HlsFloat Hls.HlsFs Hls.HlsPlaylist Hls.HlsParse Hls.HlsMuxer.
 Open Scope Z_scope.
 
 (* ---- inputs ---- *)
@@ -33,7 +33,8 @@ Definition listed_seconds (sg : seg) : Z := (f_millis (s_dur sg) + 500) / 1000.
 
 Definition live_ok (c : cfg) (s : fs) : Prop :=
   forall f, fs_lookup PLive s = Some f ->
-  exists pl, fdata f = print_live (c_stream c) pl                      (* a complete playlist *)
+  exists pl, fdata f = print_live (c_stream c) pl                      (* the text of a structured playlist ... *)
+    /\ parse_live (fdata f) = Some (abs_pl (c_stream c) pl)           (* ... which parses completely, to that playlist *)
     /\ Forall (fun sg => listed_seconds sg <= pl_target pl) (pl_segs pl)
     /\ Forall (seg_file_ok s) (pl_segs pl).
 
